@@ -309,6 +309,25 @@ const c08prov = `
   > {route: "plain", value: k * 3}
 }
 
+@ GET /r/setex/:k/:v {
+  % redis: Redis
+  $ r = redis.set(k, v, 1)
+  > {route: "r-setex", key: k, result: r}
+}
+
+@ GET /bg/:who {
+  % redis: Redis
+  $ f = async {
+    $ i = 0
+    while i < 12 {
+      i = i + 1
+    }
+    $ r = redis.set("bg-" + who, who)
+    > r
+  }
+  > {route: "bg", who: who}
+}
+
 @ POST /db/articles {
   % db: Database
   $ a = db.articles.create({title: input.title, tags: input.tags, meta: {views: 0, by: input.title}})
@@ -457,7 +476,15 @@ func c08Server(s *sim.Sim, p *sim.Params, providers bool) {
 				r = c08genCompiled(s)
 			} else {
 				nuniq++
-				switch s.Choose(sim.SWork, 21) {
+				switch s.Choose(sim.SWork, 26) {
+				case 21, 22:
+					// a value that expires after one second
+					r = simReq{path: fmt.Sprintf("/r/setex/k%d/x%d", s.Choose(sim.SWork, 2), nuniq)}
+				case 23:
+					r = simReq{path: "/sleep"} // the client pauses (1.2 simulated seconds): values expire meanwhile
+				case 24, 25:
+					// a route that starts a block and answers without awaiting it
+					r = simReq{path: "/bg/" + []string{"alice", "bob", "carol", "dave"}[s.Choose(sim.SWork, 4)]}
 				case 18, 19:
 					// a request changes its own copy of a record it read (nothing is written back)
 					r = simReq{path: fmt.Sprintf("/db/articles/%d/touch", 1+s.Choose(sim.SWork, 3))}
@@ -541,9 +568,25 @@ func c08Server(s *sim.Sim, p *sim.Params, providers bool) {
 		hs = append(hs, s.Spawn(fmt.Sprintf("request#%d", ti), func() {
 			for _, r := range plans[ti] {
 				s.Op(c08desc(r))
+				if r.path == "/sleep" {
+					s.Sleep(1200 * time.Millisecond)
+					continue
+				}
 				call := s.Stamp()
 				resp := sv.do(r)
 				results = append(results, c08result{ti, r, resp, call, s.Stamp()})
+			}
+		}))
+	}
+	if !providers && s.Choose(sim.SWork, 4) == 0 {
+		// the same process sets the routes up again while requests are being served (what
+		// `glyph dev` does on every save, and what a second server in the process does)
+		s.Probe("routes-set-up-again-during-requests")
+		hs = append(hs, s.Spawn("setup-again", func() {
+			for i := 0; i < 2; i++ {
+				if _, err := simBuildServer(src, interp); err != nil {
+					s.InfraFail("C08: corpus does not load the second time: " + err.Error())
+				}
 			}
 		}))
 	}
@@ -577,6 +620,74 @@ func c08Server(s *sim.Sim, p *sim.Params, providers bool) {
 	}
 	if providers {
 		c08providerInvariants(s, results, sample)
+		c08finalState(s, sv, results, sample)
+	}
+}
+
+// c08finalState: once every request has been answered and background blocks have finished,
+// (a) a key written by a background block holds the value of the request that started the block
+// (a block keeps the variables of its own request, whatever requests came after), and
+// (b) an acknowledged write that nothing overlapped or followed is still there: the last plain
+// set of a key, when no other write, delete or expiring set of that key overlaps or follows it.
+func c08finalState(s *sim.Sim, sv *simServer, results []c08result, sample []string) {
+	hist := strings.Join(sample, "\n")
+	get := func(k string) string {
+		r := sv.do(simReq{path: "/r/get/" + k, remote: "10.2.9.9:9"})
+		var body map[string]interface{}
+		if json.Unmarshal([]byte(r.body), &body) != nil {
+			return "?"
+		}
+		if body["value"] == nil {
+			return "<nil>"
+		}
+		return fmt.Sprint(body["value"])
+	}
+	started := map[string]bool{}
+	for _, r := range results {
+		if strings.HasPrefix(r.req.path, "/bg/") && r.resp.status == 200 {
+			started[strings.TrimPrefix(r.req.path, "/bg/")] = true
+		}
+	}
+	for _, who := range []string{"alice", "bob", "carol", "dave"} {
+		v := get("bg-" + who)
+		if started[who] {
+			s.Probe("background-block-checked")
+			if v != who {
+				s.Fail("oracle", "background-block-wrong-request", fmt.Sprintf("the block started by GET /bg/%s stored %q under bg-%s: it must keep its own request's variables\n%s", who, v, who, hist))
+			}
+		} else if v != "<nil>" {
+			s.Fail("oracle", "background-block-wrong-request", fmt.Sprintf("nobody requested /bg/%s but bg-%s holds %q\n%s", who, who, v, hist))
+		}
+	}
+	for _, k := range []string{"k0", "k1"} {
+		var last *c08result
+		clean := true
+		for i := range results {
+			r := &results[i]
+			if !strings.HasPrefix(r.req.path, "/r/set/"+k+"/") && !strings.HasPrefix(r.req.path, "/r/setex/"+k+"/") {
+				continue
+			}
+			if last == nil || r.call > last.call {
+				last = r
+			}
+		}
+		if last == nil || !strings.HasPrefix(last.req.path, "/r/set/") {
+			continue
+		}
+		for i := range results {
+			r := &results[i]
+			if r != last && (strings.HasPrefix(r.req.path, "/r/set/"+k+"/") || strings.HasPrefix(r.req.path, "/r/setex/"+k+"/")) && r.ret > last.call {
+				clean = false // another write overlaps the last one
+			}
+		}
+		if !clean {
+			continue
+		}
+		want := strings.TrimPrefix(last.req.path, "/r/set/"+k+"/")
+		s.Probe("last-write-checked")
+		if v := get(k); v != want {
+			s.Fail("oracle", "acknowledged-write-lost:redis", fmt.Sprintf("the last write of %s (%s, acknowledged, overlapped by no other write) is not what the key holds at the end: %q\n%s", k, last.req.path, v, hist))
+		}
 	}
 }
 
